@@ -5,12 +5,12 @@ import "time"
 func init() {
 	registry = append(registry, property{id: "C11", parts: []part{
 		{name: "reopen", pkg: "./c11", run: "^TestReopen$",
-			shards: [2]int{8, 16}, checks: [2]int{5000, 80000}, timeout: [2]time.Duration{9 * min, 25 * min}},
+			shards: [2]int{8, 16}, checks: [2]int{5000, 80000}, timeout: [2]time.Duration{9 * min, 50 * min}},
 		{name: "bigoffsets", pkg: "./c11", run: "^TestBigOffsets$",
-			shards: [2]int{8, 16}, checks: [2]int{60, 2500}, timeout: [2]time.Duration{9 * min, 25 * min}},
+			shards: [2]int{8, 16}, checks: [2]int{60, 2500}, timeout: [2]time.Duration{9 * min, 50 * min}},
 		{name: "shortwrite", pkg: "./c11", run: "^TestShortWrites$", bins: []string{"diskchild"},
-			shards: [2]int{8, 16}, checks: [2]int{25, 1500}, timeout: [2]time.Duration{9 * min, 25 * min}},
+			shards: [2]int{8, 16}, checks: [2]int{25, 1500}, timeout: [2]time.Duration{9 * min, 50 * min}},
 		{name: "faults", pkg: "./c11", run: "^TestFaults$", bins: []string{"diskchild"},
-			shards: [2]int{8, 16}, checks: [2]int{8, 120}, timeout: [2]time.Duration{12 * min, 25 * min}},
+			shards: [2]int{8, 16}, checks: [2]int{8, 120}, timeout: [2]time.Duration{12 * min, 50 * min}},
 	}})
 }
